@@ -12,7 +12,8 @@ Definition unrows (l : brows) : rows := map (fun r => (unbs (fst r), unbs (snd r
 Inductive op :=
 | OpMask (refseq : bs) (start len : Z) (mr : bs) (nogap noref : bool)
 | OpMaskOcc (refseq : bs) (maxocc : Z) (mr : bs)
-| OpMaskUnique (refseq : bs) (mr : bs).
+| OpMaskUnique (refseq : bs) (mr : bs)
+| OpCli (what : bs).     (* a command-line relation checked by the harness: c_err = it does not hold *)
 
 Record case := mk { c_alpha : Z; c_in : brows; c_op : op; c_err : bool; c_out : brows; c_len : Z }.
 
@@ -29,6 +30,7 @@ Definition model_ok (c : case) : bool :=
   | OpMask refseq start len mr nogap noref => res_ok c (mask (c_alpha c) rs (unbs refseq) start len (unbs mr) nogap noref)
   | OpMaskOcc refseq maxocc mr => res_ok c (mask_occurences (c_alpha c) rs (unbs refseq) maxocc (unbs mr))
   | OpMaskUnique refseq mr => res_ok c (mask_unique (c_alpha c) rs (unbs refseq) (unbs mr))
+  | OpCli _ => true
   end.
 
 (* ---- SPEC oracle ------------------------------------------------------------------------------- *)
@@ -88,6 +90,7 @@ Definition spec_check (c : case) : option bool :=
                     else beqb (nth i (snd o) x00) b) (seq 0 L)) (combine rs out))
           end
       end
+  | OpCli _ => Some (negb (c_err c))
   | OpMaskOcc _ _ _ | OpMaskUnique _ _ =>
       let '(refseq, maxocc, mr) :=
         match c_op c with
